@@ -3,6 +3,7 @@ import Req.Pool.Lockset
 import Req.Pool.Monitor
 import Req.Pool.H1PoolLane
 import Req.Pool.Pairing
+import Req.Pool.WriteTok
 import Req.Pool.H2MuxLane
 import Req.Pool.H3Map
 import Req.Driver.L.C09Dump
@@ -110,21 +111,30 @@ kinds: `NB` no body · `B` body read to EOF · `CH` chunked body read to EOF · 
 `Expect: 100-continue` answered by `100 Continue` + 200 / by a final 403 without 100 (keep-alive) ·
 `NBU`/`BU` like `NB`/`B`, but the origin sends unsolicited bytes (a duplicate of the response, an
 unrequested response, garbage, half a status line) after the complete response, and the caller
-lets the read loop see them before its next request.
+lets the read loop see them before its next request · `UE`/`UB` (round 7) POST whose body tail the
+caller holds back, answered at once by a final 401/413 without / with a body on a kept-alive
+connection: the write of THIS request has not been reported when the read loop decides
+(`wrote = false`, computed by `Req.Pool.WriteTok`) · `WL` marker: the connections of this sequence
+report every write late (the write-report channel model runs with `lateReport`); no request.
 Answer per request `<conn>:<reused>:<events>` (joined with `;`): conn = sequence number of the
 connection used, events = `R` response returned to the caller, `P` PutIdleConn(nil), `p`
 PutIdleConn(error), `E` caller saw EOF, `C` caller closed early — in observation order. -/
 
 structure PairSim where
   st : Req.Pool.Pairing.St := {}
+  tok : Req.Pool.WriteTok.St := {}   -- the write-report channel of the current connection
+  late : Bool := false               -- `WL`: reports arrive after the response was processed
   conn : Nat := 1
   fresh : Bool := true      -- the current connection has not carried a request yet
   out : List String := []
 
 def pairReq (sim : PairSim) (r : Nat) (kind : String) : Option PairSim :=
   -- (hasBody, keep, accept, eof)
+  let held := kind == "UE" || kind == "UB"
   let spec : Option (Bool × Bool × Bool × Bool) :=
     match kind with
+    | "UE" => some (false, true, true, true)
+    | "UB" => some (true, true, true, true)
     | "NB" => some (false, true, true, true)
     | "HD" => some (false, true, true, true)
     | "B" => some (true, true, true, true)
@@ -146,11 +156,15 @@ def pairReq (sim : PairSim) (r : Nat) (kind : String) : Option PairSim :=
   | none => none
   | some (hasBody, keep, accept, eof) =>
     -- a closed (or never available) connection is replaced by a freshly dialled one
-    let (st0, conn, fresh) :=
-      if sim.st.avail then (sim.st, sim.conn, sim.fresh) else ({}, sim.conn + 1, true)
+    let (st0, tok0, conn, fresh) :=
+      if sim.st.avail then (sim.st, sim.tok, sim.conn, sim.fresh) else ({}, {}, sim.conn + 1, true)
+    -- the write side (Req.Pool.WriteTok): writeLoop takes the request; unless the caller holds
+    -- the body back its write finishes; the report is filed before the response is processed,
+    -- or (late-reporting connection) while `wroteRequest` waits for it
+    let (t4, wrote) := Req.Pool.WriteTok.serveOne {} tok0 ⟨r, held, sim.late, !(held || kind == "E1" || kind == "EX")⟩
     let s1 := Req.Pool.Pairing.step (Req.Pool.Pairing.step st0 (.start r)) .peerAnswer
-    let s2 := Req.Pool.Pairing.step s1 (.readHead hasBody keep true accept)
-    let s3 := if hasBody then Req.Pool.Pairing.step s2 (.bodyDone eof true accept) else s2
+    let s2 := Req.Pool.Pairing.step s1 (.readHead hasBody keep wrote accept)
+    let s3 := if hasBody then Req.Pool.Pairing.step s2 (.bodyDone eof wrote accept) else s2
     -- events of this request = what was added to the log, oldest first
     let added := (s3.log.take (s3.log.length - st0.log.length)).reverse
     let letters := added.filterMap fun e =>
@@ -168,7 +182,7 @@ def pairReq (sim : PairSim) (r : Nat) (kind : String) : Option PairSim :=
     -- unsolicited bytes behind the response: the read loop finds them on the idle connection
     let s3 := if unsolicited then
         Req.Pool.Pairing.step (Req.Pool.Pairing.step s3 .peerExtra) .peekIdle else s3
-    some { st := s3, conn := conn, fresh := false,
+    some { st := s3, tok := t4, late := sim.late, conn := conn, fresh := false,
            out := (toString conn ++ ":" ++ (if fresh then "0" else "1") ++ ":" ++ evs) :: sim.out }
 
 def lanePair : List String → String
@@ -176,6 +190,7 @@ def lanePair : List String → String
     let ks := kinds.splitOn ","
     let rec go (sim : PairSim) (r : Nat) : List String → Option PairSim
       | [] => some sim
+      | "WL" :: rest => go { sim with late := true } r rest
       | k :: rest => match pairReq sim r k with
         | none => none
         | some sim' => go sim' (r + 1) rest
